@@ -145,6 +145,62 @@ pub struct VxAscTimes { pub timestamp_offset_dms: u32, pub first_neg_timestamp_u
 //@|    ensures true, // O:asc.timestamp.no_overflow (whatever time stamp the line carries and whatever the offset to the reference time is)
 //@ end
 
+// LogCat2DltMsgIterator::next, a threadtime line: time stamp and reception time from the parsed date-time. R12: chrono's NaiveDateTime
+// as microseconds since the epoch (mathematical integer), the iterator reduced to the fields these statements touch.
+#[verifier::external_body]
+pub struct VxDateTime { _p: u8 }
+#[verifier::external_body]
+pub struct VxDuration { _p: u8 }
+impl VxDuration {
+    pub uninterp spec fn us(&self) -> int;
+    #[verifier::external_body]
+    pub fn num_microseconds(&self) -> (r: Option<i64>) ensures r is Some ==> r->Some_0 as int == self.us(), (i64::MIN as int <= self.us() <= i64::MAX as int) ==> r is Some { unimplemented!() }
+}
+impl VxDateTime {
+    pub uninterp spec fn us(&self) -> int;
+    #[verifier::external_body]
+    pub fn vx_lt(&self, o: &VxDateTime) -> (r: bool) ensures r == (self.us() < o.us()) { unimplemented!() }
+    #[verifier::external_body]
+    pub fn vx_ge(&self, o: &VxDateTime) -> (r: bool) ensures r == (self.us() >= o.us()) { unimplemented!() }
+    #[verifier::external_body]
+    pub fn signed_duration_since(&self, o: VxDateTime) -> (r: VxDuration) ensures r.us() == self.us() - o.us() { unimplemented!() }
+    #[verifier::external_body]
+    pub fn and_utc(&self) -> (r: VxDateTime) ensures r.us() == self.us() { unimplemented!() }
+    // chrono documents the range of dates it represents: far inside i64 microseconds
+    #[verifier::external_body]
+    pub fn timestamp_micros(&self) -> (r: i64) ensures r as int == self.us() { unimplemented!() }
+    #[verifier::external_body]
+    pub fn clone(&self) -> (r: VxDateTime) ensures r.us() == self.us() { unimplemented!() }
+}
+pub struct VxLogcatTimes {
+    pub max_threadtime_treat_as_timestamp_start: VxDateTime,   // 1 Jan 00:00 of the reference year
+    pub max_threadtime_treat_as_timestamp: VxDateTime,         // 1 Jan 12:00 of the reference year
+    pub threadtime_last_monotonic_timestamp: u64,
+    pub threadtime_timestamp_reference: Option<u64>,
+    pub recorded_start_time_us: u64,
+}
+impl VxLogcatTimes {
+    // as LogCat2DltMsgIterator::new sets the fields up, and as this step keeps them
+    pub open spec fn inv(&self) -> bool {
+        &&& 0 <= self.max_threadtime_treat_as_timestamp_start.us() <= 0x1000_0000_0000_0000
+        &&& self.max_threadtime_treat_as_timestamp.us() == self.max_threadtime_treat_as_timestamp_start.us() + 43_200_000_000
+        &&& self.threadtime_last_monotonic_timestamp < 43_200_000_000
+        &&& self.recorded_start_time_us <= 0x7fff_ffff_ffff_ffff   // the recording start (file modification time / now) in us: below 2^63 (ASSUMED)
+    }
+}
+//@ extract src/utils/logcat2dltmsgiterator.rs region `let (timestamp_us, reception_time_us) = if threadtime` .. `let (timestamp_us, reception_time_us) = if threadtime` in <Iterator for LogCat2DltMsgIterator>::next
+//@   sig pub fn threadtime_times(vx_self: &mut VxLogcatTimes, threadtime: VxDateTime) -> (r: (u64, u64))
+//@   tail `(timestamp_us, reception_time_us)`
+//@   sub R12 `self` => `vx_self` *
+//@   sub R12 `threadtime < vx_self.max_threadtime_treat_as_timestamp` => `threadtime.vx_lt(&vx_self.max_threadtime_treat_as_timestamp)`
+//@   sub R12 `threadtime >= vx_self.max_threadtime_treat_as_timestamp_start` => `threadtime.vx_ge(&vx_self.max_threadtime_treat_as_timestamp_start)` ?
+//@   sub R12 `vx_self.max_threadtime_treat_as_timestamp_start,` => `vx_self.max_threadtime_treat_as_timestamp_start.clone(),` ?
+//@   spec
+//@|    requires old(vx_self).inv(), 0 <= threadtime.us() <= i64::MAX as int,   // parse_mmdd_str never goes below the year 1970
+//@|        threadtime.us() < old(vx_self).max_threadtime_treat_as_timestamp_start.us() ==> threadtime.us() >= 43_200_000_000, // ASSUMED: a date taken as 'previous year' is later in the year than the reference date, hence not within the first 12 h of 1970
+//@|    ensures final(vx_self).inv(), // O:asc.threadtime.times_no_overflow (+ the arithmetic obligations of the statement: no overflow whatever date the line carries)
+//@ end
+
 // Asc2DltMsgIterator::next, a CAN line: from the position of the data-length capture to the decoded data bytes
 //@ extract src/utils/asc2dltmsgiterator.rs region `let loc_d_start = loc_d.1 + 1;` .. `let data = if *data_len > 0` in <Iterator for Asc2DltMsgIterator>::next
 //@   sig pub fn asc_can_data(line: &VxLine, loc_d: (usize, usize), data_len: &u16) -> (r: Option<Vec<u8>>)
